@@ -317,7 +317,3 @@ Proof.
     apply avz_trace_sample_zero_energy.
 Qed.
 
-Print Assumptions zhs_whole_sample_shift.
-Print Assumptions avz_whole_sample_shift.
-Print Assumptions zhs_inv_distance.
-Print Assumptions avz_inv_distance.
